@@ -24,13 +24,15 @@ def goErrByName : String → Option GoErr
   | "X14" => some (.customIs 14 1)                    -- Is(E1) = true
   | "WX15" => some (.wrap 15 (.customIs 14 1))
   | "A16" => some (.customAs 16 2)                    -- As(&*CustomErr) gives C2
+  | "JJ17" => some (.join 17 (.plain 1) (.join 0 (.custom 2) (.wrap 6 (.interrupted 5))))
+  | "JD18" => some (.join 18 (.wrap 3 (.custom 2)) (.wrap 3 (.custom 2)))
   | _ => none
 
-def targets : List Nat := [1, 2, 3, 4, 5, 6, 7, 8, 9, 12, 14, 15, 16]
+def targets : List Nat := [1, 2, 3, 4, 5, 6, 7, 8, 9, 12, 14, 15, 16, 17, 18]
 
 def idName : Nat → String
   | 1 => "E1" | 2 => "C2" | 3 => "W3" | 4 => "J4" | 5 => "I5" | 6 => "WI6" | 7 => "JI7" | 8 => "S8" | 9 => "E9"
-  | 12 => "WS12" | 14 => "X14" | 15 => "WX15" | 16 => "A16" | n => "?id" ++ toString n
+  | 12 => "WS12" | 14 => "X14" | 15 => "WX15" | 16 => "A16" | 17 => "JJ17" | 18 => "JD18" | n => "?id" ++ toString n
 
 def clsName : ErrClass → String
   | .error => "Error" | .typeError => "TypeError" | .referenceError => "ReferenceError"
@@ -94,7 +96,7 @@ def parseFrame : String → Option Frame
   | "FO" => some .fo | "DY" => some .dy | "RP" => some .rp | "PR" => some .pr
   | "FCV" => some .fcv | "RFW" => some .rfw | "JI" => some .ji | "JG" => some .jg | "JGF" => some .jgf
   | "JA" => some .ja | "JAW" => some .jaw | "FOT" => some .fot
-  | "JIT" => some .jit | "JY" => some .jy | "JYF" => some .jyf | "FCS" => some .fcs
+  | "JIT" => some .jit | "JY" => some .jy | "JYF" => some .jyf | "FCS" => some .fcs | "TG" => some .tg
   | _ => none
 
 def parseChain (s : String) : Option (List Frame) :=
@@ -102,6 +104,7 @@ def parseChain (s : String) : Option (List Frame) :=
 
 def parseEntry : String → Option Entry
   | "RS" => some .runString | "CA" => some .callable | "EX" => some .exported
+  | "CO" => some .callable          -- AssertConstructor(function C(){ callee() })(nil): the same runWrapped, head is JS
   | _ => none
 
 def parsePayload (s : String) : Option Payload :=
